@@ -42,6 +42,26 @@ func WriteDeclarations(decls []Declaration) string {
 // suitable to be included as comment.
 func Origin(ty analysis.Type) string { return ty.Type().String() }
 
+// TypeArgsSuffix returns a suffix usable in identifiers, built from the
+// type arguments of a generic instantiation, so that distinct instantiations
+// of the same generic type get distinct names.
+// It returns an empty string for a non generic type.
+func TypeArgsSuffix(named *types.Named) string {
+	var out string
+	args := named.TypeArgs()
+	for i := 0; i < args.Len(); i++ {
+		switch arg := args.At(i).(type) {
+		case *types.Named:
+			out += "_" + arg.Obj().Name() + TypeArgsSuffix(arg)
+		case *types.Basic:
+			out += "_" + arg.Name()
+		default:
+			panic("unsupported type argument " + arg.String() + " in generic instantiation " + named.String())
+		}
+	}
+	return out
+}
+
 // NameRelativeTo is the same as types.Relative to, but
 // use the (shorter) package name instead of path.
 func NameRelativeTo(pkg *types.Package) types.Qualifier {
